@@ -254,6 +254,8 @@ def run_five(case, res, prop, ref, on_sim=None):
     pend.sort(key=lambda x: x[0])
     pi = 0
     cur = list(ref.init)
+    ghist = [[ref.init[r]] + [v for (_, v) in ref.writes[r]] for r in range(32)]
+    gptr = [0] * 32
     ref_stores = [(a, n, v) for (_, a, n, v) in ref.stores]
     ref_out_prefixes = {""}
     acc = ""
@@ -328,7 +330,28 @@ def run_five(case, res, prop, ref, on_sim=None):
             if prop in ("C07", "C08"):
                 return None
         # ---- register file after this step
-        if aligned:
+        if hz:
+            # C02 does not claim WHEN a register changes (that is C07) nor that a write which nothing can observe
+            # becomes visible: each register's observed history must be a monotone walk through its golden value
+            # history (it may lag or skip, never go back, never hold a value the golden trace does not contain -
+            # which is what a wrong-path or re-executed instruction produces).  Final equality is checked at the end.
+            rr = real_regs(sim)
+            for r in range(1, 32):
+                x = rr[r]
+                h = ghist[r]
+                if x != h[gptr[r]]:
+                    q = gptr[r] + 1
+                    while q < len(h) and h[q] != x:
+                        q += 1
+                    if q >= len(h):
+                        res.violation(VAL, "register-file-at-step", "after step %d x%d = %#x: not a value the golden trace gives this register from here on (golden history %s, position %d)" % (t, r, x, [hex(v) for v in h[max(0, gptr[r] - 1) : gptr[r] + 4]], gptr[r]), case)
+                        return None
+                    gptr[r] = q
+            if rr[0] != 0:
+                res.violation(VAL, "register-file-at-step", "x0 = %#x after step %d" % (rr[0], t), case)
+                return None
+        elif aligned:
+            # hazard detection off (C08): which write an instruction observes IS the property - exact per cycle
             while pi < len(pend) and pend[pi][0] <= t:
                 cur[pend[pi][2]] = pend[pi][3]
                 pi += 1
